@@ -650,3 +650,161 @@ def write_elf_unaligned(path, pfn, npages, ps=4096, shift=None, voff=0xffffffff8
         f.seek(off)
         for i in range(npages):
             f.write(page_bytes(pfn + i, ps))
+
+# ---- appended for C04 (history independence)
+
+
+# ---------------------------------------------------------------- appended for C04
+def salted_page(pfn, ps, salt=0, nuls=()):
+    """page content that also depends on `salt` (to tell copies of one frame apart)"""
+    if not salt:
+        return page_bytes(pfn, ps, nuls)
+    base = pfn * ps
+    return bytes(content_byte(((base + i) ^ (salt * 0x5851F42D4C957F2D)) & M64) for i in range(ps))
+
+
+def pattern_page(pfn, ps, salt=0):
+    """compressible page: the first 64 content bytes of the frame, repeated"""
+    base = pfn * ps
+    first = bytes(content_byte(((base + i) ^ (salt * 0x5851F42D4C957F2D)) & M64) for i in range(64))
+    return (first * (ps // 64 + 1))[:ps]
+
+
+def rle_lkcd(data):
+    """LKCD run-length encoding: 0,0 = literal NUL; 0,n,c = c repeated n times; else literal"""
+    out = bytearray()
+    i, n = 0, len(data)
+    while i < n:
+        c = data[i]
+        j = i
+        while j < n and data[j] == c and j - i < 255:
+            j += 1
+        if j - i >= 4 or (c == 0 and j - i >= 2):
+            out += bytes([0, j - i, c])
+            i = j
+        elif c == 0:
+            out += b"\0\0"
+            i += 1
+        else:
+            out.append(c)
+            i += 1
+    return bytes(out)
+
+
+LKCD_MAGIC = 0xa8190173618f23ed
+LKCD_RAW, LKCD_COMPRESSED, LKCD_END = 1, 2, 4
+
+
+def write_lkcd_hist(path, entries, ps=4096, compression=2, data_offset=65536, machine="x86_64",
+               version=9, end=True, nuls=(), be=False):
+    """LKCD v9 dump.  entries: descriptors in FILE order, each a dict
+       pfn=<frame>, kind='raw'|'comp'|'badflags' (default raw), salt=<content salt>,
+       skip=<bytes of slack after the data, counted in dp_size>, content=<explicit page bytes>.
+    compression: header field (1 = RLE, 2 = GZIP).  Frames may repeat, be unordered, have
+    gaps and be far apart.  Returns list of (pfn, descriptor offset)."""
+    E = ">" if be else "<"
+    uts = [b"Linux", b"verif", b"5.4.0-verif", b"#1 SMP", machine.encode(), b"(none)"]
+    hdr = struct.pack(E + "QIIIIQQQ", LKCD_MAGIC, version, 0, 2, ps, 0, 0, LKCD_MAGIC)
+    hdr += struct.pack(E + "I", len(entries)) + b"\0" * 0x100 + struct.pack(E + "QQ", 0, 0)
+    hdr += b"".join(u.ljust(65, b"\0") for u in uts)
+    hdr += struct.pack(E + "QIIIQ", 0, compression, 0, 0, data_offset)
+    hdr = hdr[:8 + 4] + struct.pack(E + "I", len(hdr)) + hdr[16:]
+    offs = []
+    with open(path, "wb") as f:
+        f.write(hdr)
+        f.seek(data_offset)
+        for e in entries:
+            raw = e.get("content")
+            kind = e.get("kind", "raw")
+            if raw is None:
+                raw = (pattern_page(e["pfn"], ps, e.get("salt", 0)) if kind == "comp"
+                       else salted_page(e["pfn"], ps, e.get("salt", 0), nuls))
+            if kind == "comp":
+                data = rle_lkcd(raw) if compression == 1 else zlib.compress(raw)
+                flags = LKCD_COMPRESSED
+            elif kind == "badflags":
+                data, flags = raw, 0
+            else:
+                data, flags = raw, LKCD_RAW
+            skip = e.get("skip", 0)
+            if kind != "comp":
+                skip = 0                      # a raw page must have dp_size == page size
+            elif not e.get("oversize"):
+                skip = max(0, min(skip, ps - len(data)))   # the reader's buffer for compressed data is one page
+            offs.append((e["pfn"], f.tell()))
+            f.write(struct.pack(E + "QII", e["pfn"] * ps, len(data) + skip, flags))
+            f.write(data)
+            if skip:
+                f.seek(skip, 1)
+        if end:
+            f.write(struct.pack(E + "QII", 0, 0, LKCD_END))
+        else:
+            f.truncate(f.tell())
+    return offs
+
+
+def write_elf_salted(path, segs, ps=4096, machine="x86_64", truncate_to=None):
+    """ELF64-LE core with byte-granular PT_LOAD segments that may overlap in memory.
+    segs: dicts(paddr=, filesz=, memsz=, voff=, salt=) in program-header order; the byte
+    stored for physical address pa of a segment with salt s is salted content (salt 0 =
+    content_byte(pa)).  truncate_to: cut the file at that size.  Returns the list of
+    (file_offset, seg) in header order."""
+    nph = len(segs)
+    ehsz, phsz = 64, 56
+    off = (ehsz + nph * phsz + ps - 1) // ps * ps
+    ph = b""
+    out = []
+    for s in segs:
+        va = (s["paddr"] + s.get("voff", 0)) & M64
+        ph += struct.pack("<IIQQQQQQ", 1, 7, off, va, s["paddr"], s["filesz"], s["memsz"], ps)
+        out.append((off, s))
+        off += (s["filesz"] + ps - 1) // ps * ps
+    ident = b"\x7fELF" + bytes([2, 1, 1, 0]) + b"\0" * 8
+    eh = ident + struct.pack("<HHIQQQIHHHHHH", 4, EM[machine], 1, 0, ehsz, 0, 0, ehsz, phsz, nph, 0, 0, 0)
+    with open(path, "wb") as f:
+        f.write(eh + ph)
+        for o, s in out:
+            f.seek(o)
+            salt = s.get("salt", 0)
+            pa0 = s["paddr"]
+            f.write(bytes(content_byte(((pa0 + i) ^ (salt * 0x5851F42D4C957F2D)) & M64) if salt else content_byte(pa0 + i)
+                          for i in range(s["filesz"])))
+        f.truncate(max(off, f.tell()))
+        if truncate_to is not None:
+            f.truncate(truncate_to)
+    return out
+
+
+def write_diskdump_custom(path, pages, custom, **kw):
+    """write_diskdump with explicit contents for some frames: custom = {pfn: bytes(page)}"""
+    global page_bytes
+    orig = page_bytes
+    def pb(pfn, ps, nuls=()):
+        c = custom.get(pfn)
+        return bytes(c) if c is not None else orig(pfn, ps, nuls)
+    page_bytes = pb
+    try:
+        return write_diskdump(path, pages, **kw)
+    finally:
+        page_bytes = orig
+
+
+def x86_64_pgt_pages(mapping, table_pfns, ps=4096):
+    """4-level x86-64 page tables for {virtual page number: physical frame}; table pages are
+    taken from the list table_pfns (first = root).  Returns (root_pfn, {pfn: bytes})."""
+    free = list(table_pfns)
+    root = free.pop(0)
+    tables = {root: [0] * 512}
+    def child(tpfn, idx):
+        e = tables[tpfn][idx]
+        if e & 1:
+            return e >> 12 & ((1 << 40) - 1)
+        n = free.pop(0)
+        tables[n] = [0] * 512
+        tables[tpfn][idx] = (n << 12) | 0x63
+        return n
+    for vpn, pfn in mapping.items():
+        i4, i3, i2, i1 = (vpn >> 27) & 511, (vpn >> 18) & 511, (vpn >> 9) & 511, vpn & 511
+        t = child(child(child(root, i4), i3), i2)
+        tables[t][i1] = (pfn << 12) | 0x63
+    return root, {p: struct.pack("<512Q", *t) for p, t in tables.items()}
